@@ -1,5 +1,5 @@
 #!/bin/sh
-# usage: tools/try_seed.sh <prop> <dir-with-patch.diff-demo.py> [seed-name]
+# usage: tools/try_seed.sh <prop> <dir> [seed-name]
 # 1. confirm the demonstration in a scratch worktree (fails with the change, passes without)
 # 2. apply the change to /repo, run ./check <prop>, undo it straight afterwards
 P="$1"; D="$2"; NAME="${3:-$P}"
